@@ -30,6 +30,7 @@ Filter(prim, preds, steps) == [op |-> "filter", prim |-> prim, preds |-> preds, 
 Bin(op, l, r) == [op |-> op, l |-> l, r |-> r]
 NegE(a) == [op |-> "neg", a |-> a]
 NumE(a) == [op |-> "num", v |-> a]
+NumText(s) == [op |-> "numtext", s |-> s]
 IntE(k) == NumE(NInt(k))
 Lit(s) == [op |-> "lit", s |-> s]
 Var(pre, lo) == [op |-> "var", pre |-> pre, lo |-> lo]
